@@ -23,6 +23,7 @@ import PvModel.Props.C02Query
 #print axioms Pv.C02_reify_goal
 #print axioms Pv.C02_reify_is_reifyState
 #print axioms Pv.C02_query_program
+#print axioms Pv.C02_query_any_body
 #print axioms Pv.C02_query_count
 #print axioms Pv.C02_query_tree
 #print axioms Pv.C02_query_exact
